@@ -300,8 +300,12 @@ def wellKinded : Rule → List Tm → List Seq → Bool
   | .connectiveDef, cl, _ => goalIsIff cl && (match goalEq cl with
     | some (_, l, _) => notFoEq l
     | none => true)
-  | .equivSimplify, cl, _ => goalIsIff cl && (match goalEq cl with      -- … and so are the equivalences it rewrites
-    | some (_, l, r) => notFoEq l && notFoEq r
+  | .equivSimplify, cl, _ => goalIsIff cl && (match goalEq cl with      -- … and so are the equivalences it rewrites:
+    -- the left side always; the right side only where the rule takes it apart (`(¬c <--> ¬d) <--> (c <--> d)`: `c` is
+    -- negated on the left, so it is a formula).  Elsewhere the right side is any formula, e.g. an equation `s = t`.
+    | some (_, l, r) => notFoEq l && (match l with
+      | mkIff (mkNot _) (mkNot _) => notFoEq r
+      | _ => true)
     | none => true)
   | .notEquiv2, _, p :: _ => match p.prop with
     | mkNot (mkEq _ _) => false
